@@ -33,3 +33,6 @@ chk("C17","chainsim","exploration",
 chk("C08","chainsim","exploration",
  "Seeded input generation executed on the simulated node: structure/byte-level mutations of transactions of every kind and direct calls of every reflection-enumerated method with typed arbitrary arguments, at any block position; receipts-per-transaction, next height, wedge watchdog and process survival are checked; node deaths are attributed to the run, minimised with one process per candidate and replayed.",
  CN+" The quantifier is over inputs only: no schedule or fault space is claimed; the simulator adds wedge/crash detection, block-position variation and exact replay.", "deterministic simulation used as an input-robustness harness: seeded mutations + reflection-enumerated calls + process-death attribution", "DESIGN.md §5 C08")
+chk("C05","chainsim","exploration",
+ "Seeded one-to-many traffic (2-4 children over one or two destination chains, any begin/report order, failing child at any position, group timeouts, duplicate/late/undeclared reports, interleaved groups) checked after every block against a reference group model: global and child statuses from the stored group record, roll-back notifications from the block's multi-transaction and timeout sets.",
+ CN, "deterministic simulation: seeded group histories vs reference all-or-nothing model", "DESIGN.md §5 C05")
